@@ -1,2 +1,4 @@
 //! glue regenerated from /repo by tools/translate.py on every run
 pub mod kinds;
+pub mod layouts;
+pub mod glue;
